@@ -1,8 +1,10 @@
-(* C09 — package-level state of robfig/soy: the REVIEWED lists.  Definitions only.
+(* C09 — package-level state of robfig/soy: what the review of the source
+   concluded, as decidable predicates.  Definitions only.
 
    Races of real Go programs live in package-level mutable state (caches, pools,
    lazily built tables) and in writes through pointers into shared structures.
-   tablegen (go/cmd/tablegen/pkgvars.go) enumerates from the non-test sources
+   tablegen (go/cmd/tablegen/pkgvars.go) enumerates from the non-test sources,
+   into Generated/PkgState.v,
 
      pkg_vars            every package-level variable with the kind of its initialiser
      pkg_var_writes      every statement of a function body that writes to one (or takes its address)
@@ -11,152 +13,85 @@
                          a syntax-tree, registry, template or message-bundle type, or appends to a
                          slice obtained from one
 
-   into Generated/Tables.v.  This file holds the lists as they were when the
-   model boundary of C09 was reviewed, with the verdict of the review for every
-   entry.  Proofs/ConcGlobalsProofs.v proves that the generated lists EQUAL the
-   reviewed ones: a new package-level variable, a new write site, a new method
-   on a package-level variable or a new write through a shared type breaks that
-   proof (a broken obligation of C09) until it has been looked at; the race
-   harness is then the search for a failing schedule. *)
+   Proofs/ConcGlobalsProofs.v proves, by computation on the generated lists,
+   that they satisfy the predicates below.  The predicates are about KINDS, not
+   names, so that a refactoring that renames a regexp, regroups tables or
+   moves code between functions does not touch them, while
+
+     a package-level variable of a kind that can hold mutable state (a pool, a
+       lock, a Once, an uninitialised variable assigned later, a channel, the
+       result of an arbitrary call, a function variable),
+     a write to any package-level variable outside an init function,
+     a method on a package-level variable that is not one of the read-only
+       methods of regexp / strings.Replacer / log.Logger seen at review time,
+     a write through a shared type anywhere but in Registry.Add (or the capped
+       append of the repaired evalPrint)
+
+   breaks a proof obligation of C09 until it has been reviewed; the race
+   harness is then the search for a failing schedule.  (The exact lists of the
+   review are bin/c09_pkgstate_reviewed.json: a difference from them is reported
+   in the evidence and raises the harness budget, never an alarm.) *)
 From Coq Require Import List Bool.
 From Soy Require Import Model.Bytes.
 Import ListNotations.
 Open Scope N_scope.
 
-(* the verdict of the review for a package-level variable *)
-Inductive vclass :=
-| VTable      (* a constant-like table: built by its initialiser (or by init), never written afterwards *)
-| VImmutable  (* a value nobody can write through: an error value, a reflect.Type, a []byte constant only read *)
-| VSync       (* an object of the standard library that is documented safe for concurrent use:
-                 *regexp.Regexp, *strings.Replacer, *log.Logger *)
-| VConfig     (* exported configuration the API user may assign BEFORE rendering starts (the registries of
-                 functions and directives, the obligatory directives, the loggers, struct options, the
-                 verification hook): the library itself never writes it; the property's precondition is
-                 that the user does not write it while renders run *)
-| VTool.      (* state of a command (soyweb, xgettext-soy), outside the library *)
-
-Definition reviewed_pkg_vars : list (bstr * bstr * bstr * vclass) := Eval vm_compute in [
-  (b ".", b "Logger", b "logger", VConfig);
-  (b "ast", b "binaryPrecedence", b "map-literal", VTable);
-  (b "ast", b "stringEscaper", b "replacer", VSync);
-  (b "data", b "DefaultStructOptions", b "struct-literal", VConfig);
-  (b "data", b "timeType", b "reflect-type", VImmutable);
-  (b "parse", b "arithmeticItemsBySymbol", b "map-literal", VTable);
-  (b "parse", b "builtinIdents", b "map-literal", VTable);
-  (b "parse", b "escapes", b "make-map", VTable);                    (* filled by parse's init from unescapes *)
-  (b "parse", b "htmlTagRegexp", b "regexp", VSync);
-  (b "parse", b "phnameAttrRegexp", b "regexp", VSync);
-  (b "parse", b "precedence", b "map-literal", VTable);
-  (b "parse", b "specialChars", b "map-literal", VTable);
-  (b "parse", b "unescapes", b "map-literal", VTable);
-  (b "soyhtml", b "ErrTemplateNotFound", b "error", VImmutable);
-  (b "soyhtml", b "Funcs", b "map-literal", VConfig);
-  (b "soyhtml", b "Logger", b "logger", VConfig);
-  (b "soyhtml", b "ObligatoryPrintDirectiveNames", b "slice-literal", VConfig);
-  (b "soyhtml", b "PrintDirectives", b "map-literal", VConfig);
-  (b "soyhtml", b "VerifUnboundObserver", b "func", VConfig);       (* hook under build tag verif *)
-  (b "soyhtml", b "htmlAmp", b "call", VImmutable);
-  (b "soyhtml", b "htmlApos", b "call", VImmutable);
-  (b "soyhtml", b "htmlGt", b "call", VImmutable);
-  (b "soyhtml", b "htmlLt", b "call", VImmutable);
-  (b "soyhtml", b "htmlQuot", b "call", VImmutable);
-  (b "soyhtml", b "loopFuncs", b "map-literal", VTable);
-  (b "soyhtml", b "newlinePattern", b "regexp", VSync);
-  (b "soyjs", b "ErrNotFound", b "error", VImmutable);
-  (b "soyjs", b "Funcs", b "make-map", VConfig);                     (* filled by soyjs's init from funcs *)
-  (b "soyjs", b "PrintDirectives", b "map-literal", VConfig);
-  (b "soyjs", b "funcs", b "slice-literal", VTable);
-  (b "soyjs", b "lineCommentSafe", b "replacer", VSync);
-  (b "soymsg", b "consecutive_", b "regexp", VSync);
-  (b "soymsg", b "htmlTagNames", b "map-literal", VTable);
-  (b "soymsg", b "leadingOrTrailing_", b "regexp", VSync);
-  (b "soymsg", b "phRegex", b "regexp", VSync);
-  (b "soymsg", b "wordBoundary1", b "regexp", VSync);
-  (b "soymsg", b "wordBoundary2", b "regexp", VSync);
-  (b "soymsg", b "wordBoundary3", b "regexp", VSync);
-  (b "soymsg/pomsg/xgettext-soy", b "registry", b "struct-literal", VTool);
-  (b "soyweb", b "port", b "flag", VTool)
-].
-
-Definition var_key (v : bstr * bstr * bstr * vclass) : bstr * bstr * bstr :=
-  let '(d, n, k, _) := v in (d, n, k).
-
-(* (package of the variable, variable, package:function, kind) *)
-Definition reviewed_pkg_var_writes : list (bstr * bstr * bstr * bstr) := Eval vm_compute in [
-  (b "parse", b "escapes", b "parse:init", b "assign-element");
-  (b "soyjs", b "Funcs", b "soyjs:init", b "assign-element")
-].
-
-Definition reviewed_pkg_var_methods : list (bstr * bstr * bstr * bstr) := Eval vm_compute in [
-  (b ".", b "Logger", b ".:(*Bundle).recompiler", b "Printf");      (* the file watcher: excluded from the model boundary *)
-  (b ".", b "Logger", b ".:(*Bundle).recompiler", b "Println");
-  (b "ast", b "stringEscaper", b "ast:(*MapLiteralNode).String", b "Replace");
-  (b "parse", b "htmlTagRegexp", b "parse:(*tree).parseMsgRawText", b "FindSubmatchIndex");
-  (b "soyhtml", b "Logger", b "soyhtml:(*state).walk", b "Print");
-  (b "soyhtml", b "newlinePattern", b "soyhtml:directiveChangeNewlineToBr", b "ReplaceAllString");
-  (b "soyjs", b "lineCommentSafe", b "soyjs:(*state).visitSoyFile", b "Replace");
-  (b "soymsg", b "consecutive_", b "soymsg:toUpperUnderscore", b "ReplaceAllString");
-  (b "soymsg", b "leadingOrTrailing_", b "soymsg:toUpperUnderscore", b "ReplaceAllString");
-  (b "soymsg", b "phRegex", b "soymsg:Parts", b "FindAllStringIndex");
-  (b "soymsg", b "wordBoundary1", b "soymsg:toUpperUnderscore", b "ReplaceAllString");
-  (b "soymsg", b "wordBoundary2", b "soymsg:toUpperUnderscore", b "ReplaceAllString");
-  (b "soymsg", b "wordBoundary3", b "soymsg:toUpperUnderscore", b "ReplaceAllString");
-  (b "soymsg/pomsg/xgettext-soy", b "registry", b "soymsg/pomsg/xgettext-soy:walkSource", b "Add")
-].
-
-(* (package, written expression, package:function, kind).  All but one are
-   Registry.Add building the registry of the bundle being compiled (own memory
-   of the compiling goroutine until Compile returns); the remaining one is the
-   repaired evalPrint (25f4246): its list is node.Directives[:n:n], capacity =
-   length, so the append copies and the node's array is only read. *)
-Definition reviewed_shared_type_writes : list (bstr * bstr * bstr * bstr) := Eval vm_compute in [
-  (b "soyhtml", b "directives", b "soyhtml:(*state).evalPrint", b "append-to-capped");
-  (b "template", b "r.SoyFiles", b "template:(*Registry).Add", b "assign-through");
-  (b "template", b "r.Templates", b "template:(*Registry).Add", b "assign-through");
-  (b "template", b "r.fileByTemplateName", b "template:(*Registry).Add", b "assign-through");
-  (b "template", b "r.fileByTemplateName[tn.Name]", b "template:(*Registry).Add", b "assign-through");
-  (b "template", b "r.sourceByTemplateName", b "template:(*Registry).Add", b "assign-through");
-  (b "template", b "r.sourceByTemplateName[tn.Name]", b "template:(*Registry).Add", b "assign-through");
-  (b "template", b "sdn.Params", b "template:(*Registry).Add", b "assign-through");
-  (b "template", b "tn.Body.Nodes", b "template:(*Registry).Add", b "assign-through")
-].
-
-(* ---- what the review concluded, as decidable predicates over such lists ---- *)
+Fixpoint mem_b (x : bstr) (l : list bstr) : bool :=
+  match l with [] => false | y :: r => bstr_eqb x y || mem_b x r end.
 
 Fixpoint ends_with (sfx s : bstr) : bool :=
   if bstr_eqb sfx s then true
   else match s with [] => false | _ :: r => ends_with sfx r end.
 
+(* ---- kinds of initialiser ---- *)
+
+(* values nobody writes through, and objects of the standard library documented safe for concurrent
+   use: *regexp.Regexp, *strings.Replacer, *log.Logger *)
+Definition safe_kinds : list bstr := Eval vm_compute in
+  [b "regexp"; b "replacer"; b "logger"; b "error"; b "reflect-type"; b "flag"; b "literal"; b "bytes-literal"].
+(* constant-like tables: built by the initialiser (or by init); safe as long as nothing writes them
+   after init, which is what [write_in_init] demands of every write *)
+Definition table_kinds : list bstr := Eval vm_compute in
+  [b "map-literal"; b "slice-literal"; b "array-literal"; b "struct-literal"; b "make-map"; b "make-slice"].
+Definition kind_quiet (k : bstr) : bool := mem_b k safe_kinds || mem_b k table_kinds.
+
+(* the variables whose kind can hold mutable state: tied by name *)
+Definition loud_vars (vars : list (bstr * bstr * bstr)) : list (bstr * bstr * bstr) :=
+  filter (fun v => let '(_, _, k) := v in negb (kind_quiet k)) vars.
+Definition reviewed_loud_vars : list (bstr * bstr * bstr) := Eval vm_compute in [
+  (* the verification hook (build tag verif): assigned by the harness before any render starts *)
+  (b "soyhtml", b "VerifUnboundObserver", b "func")
+].
+
+(* ---- commands: their package-level state is not the library's ---- *)
+Definition command_dirs : list bstr := Eval vm_compute in [b "soyweb"; b "soymsg/pomsg/xgettext-soy"].
+
+(* ---- writes to package-level variables ---- *)
 Definition k_init : bstr := Eval vm_compute in b ":init".
+(* (package of the variable, variable, package:function, kind): in an init function (before main,
+   one goroutine), or in a command *)
+Definition write_in_init (w : bstr * bstr * bstr * bstr) : bool :=
+  let '(d, _, f, _) := w in ends_with k_init f || mem_b d command_dirs.
+
+(* ---- methods called on package-level variables ---- *)
+(* the methods seen at review time: all read-only on their receiver (regexp, replacer) or
+   internally locked (logger) *)
+Definition reviewed_methods : list bstr := Eval vm_compute in
+  [b "FindSubmatchIndex"; b "FindAllStringIndex"; b "ReplaceAllString"; b "Replace"; b "Print"; b "Printf"; b "Println"].
+Definition method_reviewed (m : bstr * bstr * bstr * bstr) : bool :=
+  let '(d, _, _, name) := m in mem_b name reviewed_methods || mem_b d command_dirs.
+
+(* ---- writes through syntax-tree / registry / bundle typed values ---- *)
 Definition k_registry_add : bstr := Eval vm_compute in b "template:(*Registry).Add".
 Definition k_capped : bstr := Eval vm_compute in b "append-to-capped".
-
-(* a write to a package-level variable happens in an init function (before main, single goroutine) *)
-Definition write_in_init (w : bstr * bstr * bstr * bstr) : bool :=
-  let '(_, _, f, _) := w in ends_with k_init f.
-
-Fixpoint class_of (vars : list (bstr * bstr * bstr * vclass)) (d n : bstr) : option vclass :=
-  match vars with
-  | [] => None
-  | (d', n', _, c) :: r => if bstr_eqb d d' && bstr_eqb n n' then Some c else class_of r d n
-  end.
-
-Definition k_logger : bstr := Eval vm_compute in b "Logger".
-(* a method is called only on an object that synchronises internally, on a logger, or in a command *)
-Definition method_on_safe_object (m : bstr * bstr * bstr * bstr) : bool :=
-  let '(d, v, _, _) := m in
-  match class_of reviewed_pkg_vars d v with
-  | Some VSync | Some VTool => true
-  | Some VConfig => bstr_eqb v k_logger        (* a log.Logger: safe for concurrent use *)
-  | _ => false
-  end.
-
-(* a write through a shared type builds the registry being compiled, or is the capped append *)
+(* (package, written expression, package:function, kind): Registry.Add building the registry of the
+   bundle being compiled (own memory of the compiling goroutine until Compile returns), or an append to
+   a slice cut with capacity = length (e[:n:n]: the append copies, the shared array is only read; the
+   repaired evalPrint, 25f4246) *)
 Definition shared_write_benign (w : bstr * bstr * bstr * bstr) : bool :=
   let '(_, _, f, k) := w in bstr_eqb f k_registry_add || bstr_eqb k k_capped.
 
-(* the library has no pool, cache or lock at package level *)
-Definition k_pool : bstr := Eval vm_compute in b "pool".
-Definition k_sync : bstr := Eval vm_compute in b "sync".
-Definition no_pool_or_lock (v : bstr * bstr * bstr) : bool :=
-  let '(_, _, k) := v in negb (bstr_eqb k k_pool || bstr_eqb k k_sync).
+Definition in_pkg (p : bstr) (w : bstr * bstr * bstr * bstr) : bool := let '(d, _, _, _) := w in bstr_eqb d p.
+Definition k_soyjs : bstr := Eval vm_compute in b "soyjs".
+Definition k_soyhtml : bstr := Eval vm_compute in b "soyhtml".
+Definition kind_of_write (w : bstr * bstr * bstr * bstr) : bstr := let '(_, _, _, k) := w in k.
